@@ -180,7 +180,7 @@ def gen_cases(tier, seed):
     subsets = [m for m in range(1 << 12) if bin(m).count('1') >= 2]
     for a in range(0, len(subsets), 128):
         cases.append(dict(part='subsample', masks=subsets[a:a + 128], phase=ph))
-    for kind in ('shift_tiny', 'shift_quarter', 'shift_half', 'dense2', 'dense3', 'overlap_left', 'overlap_right', 'inside',
+    for kind in ('jittered', 'shift_tiny', 'shift_quarter', 'shift_half', 'dense2', 'dense3', 'overlap_left', 'overlap_right', 'inside',
                  'disjoint', 'touching'):
         cases.append(dict(part='pair', kind=kind, phase=ph))
     cases.append(dict(part='series', phase=ph))
@@ -244,6 +244,11 @@ def run_subsample(case, v, stats):
 
 def second_operand(kind, base, phase):
     t = np.asarray(base.index, dtype=float)
+    if kind == 'jittered':
+        # same number of rows, same first and last stamp, interior stamps moved: another sampling of the same span
+        tj = t.copy()
+        tj[1:-1] += 0.0625 * np.where(np.arange(len(t) - 2) % 2, 1.0, -1.0)
+        return analytic_table(tj, phase + 0.05)
     if kind == 'shift_tiny':
         s = base.copy()
         s.index = pd.Index(t + 2.0 ** -11, name='time')      # half a millisecond: a different sampling of time
@@ -362,6 +367,8 @@ def run_resample(case, v, stats):
         'knots': t, 'knots_reversed': t[::-1], 'mid': 0.5 * (t[:-1] + t[1:]),
         'outside_mixed': np.array([90.0, 99.999, 100.0, 100.3, 103.7, 106.0, 106.001, 120.0]),
         'dense': np.arange(99.0, 107.0, 0.0625), 'single': np.array([102.125]), 'none_inside': np.array([1.0, 200.0]),
+        # as many stamps as the table has rows, same first and last stamp, different interior
+        'same_count_same_ends': np.linspace(t[0], t[-1], len(t)),
         # a microsecond / half a millisecond beside the original stamps: still interpolated, not snapped
         'near_knots': np.concatenate([t[1:-1] - 2.0 ** -20, t[1:-1] + 2.0 ** -20, t[1:-1] - 2.0 ** -11,
                                       t[:-1] + 2.0 ** -11]),
